@@ -129,3 +129,17 @@ Definition run_initiator (x : sx) : sx :=
       end
   | _ => bad_input
   end.
+
+(* dispatcher: L [S tag; input] *)
+Definition run_any (x : sx) : sx :=
+  match x with
+  | SxL [SxS tag; i] =>
+      if String.eqb tag "pair" then run_pair i
+      else if String.eqb tag "net" then run_net i
+      else if String.eqb tag "fromnet" then run_from_network i
+      else if String.eqb tag "lookup" then run_conf i
+      else if String.eqb tag "responder" then run_responder i
+      else if String.eqb tag "initiator" then run_initiator i
+      else bad_input
+  | _ => bad_input
+  end.
